@@ -566,6 +566,8 @@ func c12(c *Ctx) {
 	// "relative, absolute and bare-filename paths": filepath.Split("session.json") gives the directory "" (which
 	// is no directory), filepath.Dir gives "." - nothing on the way from the configuration to the store takes a
 	// session path apart with Split
+	r.Rule("R12.S", "the session is saved on every salt change (= R11.V filed under C12): each store to MTProto.serverSalt in processResponse is followed by SaveSession on every path to a return", 2)
+	c.saltSavedOnEveryPath("R12.S")
 	r.Rule("R12.B", "no call of path/filepath.Split (or path.Split) on a value derived from the session path in packages telegram, session and the root package: a bare file name must keep \".\" as its directory", 1)
 	{
 		n, calls := 0, 0
